@@ -106,7 +106,7 @@ class Sched(Part):
 
 class Focused(Part):
     name = "focused"
-    budget = {"quick": 16, "thorough": 600}
+    budget = {"quick": 16, "thorough": 250}
     min_per_shard = 1
 
     def setup(self, ctx):
